@@ -77,8 +77,14 @@ def match_tag(token, regex=match_tag_prefix_and_name):
     token = token[end:]
 
     attrs = d['attrs'] = []
+    pos = 0
     for m in match_single_attribute.finditer(token):
         attr = groupdict(m, token)
+        if m.start() > pos:
+            # text in front of the attribute that is not an attribute
+            # itself (tag soup) is kept as it was written
+            attr['space'] = token[pos:m.start()] + attr['space']
+        pos = m.end()
         alt_value = attr.pop('alt_value', None)
         if alt_value is not None:
             attr['value'] = alt_value
@@ -90,6 +96,10 @@ def match_tag(token, regex=match_tag_prefix_and_name):
             attr['eq'] = ''
         attrs.append(attr)
         d['suffix'] = token[m.end():]
+
+    if d['suffix'] is None:
+        # no attribute could be made out at all
+        d['suffix'] = token
 
     return d
 
